@@ -152,7 +152,7 @@ func (i *Iterator) All() iter.Seq2[pdf.Reference, pdf.Dict] {
 			switch tp {
 			case "Page":
 				for _, name := range inheritable {
-					_, isPresent := node[name]
+					isPresent := hasValue(c, node, name)
 					if val, canInherit := inherited[name]; !isPresent && canInherit {
 						node[name] = val
 					}
@@ -175,7 +175,7 @@ func (i *Iterator) All() iter.Seq2[pdf.Reference, pdf.Dict] {
 
 				hasInheritables := false
 				for _, name := range inheritable {
-					if _, isPresent := node[name]; isPresent {
+					if hasValue(c, node, name) {
 						hasInheritables = true
 						break
 					}
@@ -189,8 +189,8 @@ func (i *Iterator) All() iter.Seq2[pdf.Reference, pdf.Dict] {
 						todo = nil
 					}
 					for _, name := range inheritable {
-						if tmp, ok := node[name]; ok {
-							inherited[name] = tmp
+						if hasValue(c, node, name) {
+							inherited[name] = node[name]
 						}
 					}
 				}
@@ -206,6 +206,24 @@ func (i *Iterator) All() iter.Seq2[pdf.Reference, pdf.Dict] {
 		}
 	}
 	return yield
+}
+
+// hasValue reports whether dict has a value for key.  An entry whose value
+// is the null object, or a reference to an undefined object, is equivalent
+// to no entry at all (ISO 32000-2, 7.3.9 and 7.3.10), so it must not mask an
+// inherited attribute.
+func hasValue(c pdf.Cursor, dict pdf.Dict, key pdf.Name) bool {
+	val, ok := dict[key]
+	if !ok || val == nil {
+		return false
+	}
+	if _, isRef := val.(pdf.Reference); isRef {
+		resolved, err := c.Resolve(val)
+		if err == nil && resolved == nil {
+			return false
+		}
+	}
+	return true
 }
 
 func getInheritable(v pdf.Version) []pdf.Name {
